@@ -1,8 +1,11 @@
+import QuinnModel.Gen.PathV
 /-
 Skeleton model of path migration and validation on an established server/client connection
 (quinn-proto/src/connection/mod.rs: the remote check at the top of `handle_event`, the migration trigger at
 the end of `process_payload`, `migrate`, PATH_RESPONSE handling, `handle_timeout(PathValidation)`).
-Addresses and challenge tokens are Nat; `pto3` is the value of `3 * max(pto, prev_pto)` when the timer is set.
+Addresses and challenge tokens are Nat; a migration carries the probe timeouts of the new path and of the path
+being left, the validation deadline is `now + Gen.pathValidationFactor * max ptoNew ptoOld` (the factor is
+regenerated from `migrate`).
 -/
 namespace QM.PathM
 
@@ -26,22 +29,25 @@ inductive Ev where
   /-- an authenticated 1-RTT packet from `src`; `trigger` = it is non-probing and carries the highest packet
       number seen (the condition at the end of `process_payload`); `tok`, `tok2` are the fresh random challenge
       tokens drawn by `migrate` -/
-  | pkt (src : Nat) (trigger : Bool) (now pto3 tok tok2 : Nat)
+  | pkt (src : Nat) (trigger : Bool) (now ptoNew ptoOld tok tok2 : Nat)
   /-- a PATH_RESPONSE frame with `tok` in a packet from `src` -/
   | response (src tok : Nat)
   /-- `handle_timeout(now)` -/
   | timeout (now : Nat)
 deriving Repr
 
-def migrate (s : S) (src now pto3 tok tok2 : Nat) : S :=
+/-- how long an unvalidated path is kept: `K * max(PTO of the new path, PTO of the path being left)` -/
+def validationPeriod (ptoNew ptoOld : Nat) : Nat := Gen.pathValidationFactor * max ptoNew ptoOld
+
+def migrate (s : S) (src now ptoNew ptoOld tok tok2 : Nat) : S :=
   let newPath : P := ⟨src, false, some tok, true⟩
   let prev' := if s.path.challenge.isNone then some { s.path with challenge := some tok2, pending := true } else s.prev
-  { s with path := newPath, prev := prev', timer := some (now + pto3) }
+  { s with path := newPath, prev := prev', timer := some (now + validationPeriod ptoNew ptoOld) }
 
 def step (s : S) : Ev → S
-  | .pkt src trigger now pto3 tok tok2 =>
+  | .pkt src trigger now ptoNew ptoOld tok tok2 =>
     if src ≠ s.path.addr ∧ !s.mayMigrate then s          -- dropped before any processing
-    else if src ≠ s.path.addr ∧ trigger then migrate s src now pto3 tok tok2
+    else if src ≠ s.path.addr ∧ trigger then migrate s src now ptoNew ptoOld tok tok2
     else s
   | .response src tok =>
     if src ≠ s.path.addr ∧ !s.mayMigrate then s
